@@ -53,6 +53,9 @@ type sharedObj struct {
 	spec   *c09Obj
 	call   func(kind string, in string) any // on the shared instance
 	expect func(kind string, in string) any // on a fresh instance used alone (or a baseline)
+	// accepts: what an instance that shares nothing with the rest of the process does with the input, according to
+	// the reference parser (generated grammars only; known=false when the reference does not evaluate the case)
+	accepts func(in string) (ok, known bool)
 }
 
 type callResult struct {
@@ -181,6 +184,14 @@ func materialise(o *c09Obj) (*sharedObj, string) {
 			return nil, err.Error()
 		}
 		s.call = parserCalls(shared.P)
+		s.accepts = func(in string) (bool, bool) {
+			lx, err := shared.Lex(in)
+			if err != nil {
+				return false, false
+			}
+			_, ok, _, _, expensive := runModel(shared, lx, false)
+			return ok, !expensive
+		}
 		s.expect = func(kind, in string) any {
 			fresh, err := gram.BuildTypes(o.G, types)
 			if err != nil {
@@ -360,6 +371,30 @@ func checkC09(c *c09Case, r *vstat.Run) outcome {
 			r.Count("panic_left_to_C06_C07")
 		}
 		return outcome{}
+	}
+	// a fresh instance is only "used in isolation" if what it does is independent of everything else the process has
+	// built or parsed: its verdict is the reference parser's
+	checked := map[key]bool{}
+	for _, op := range allOps {
+		k := key{op.Obj, op.Kind, op.Input}
+		if checked[k] {
+			continue
+		}
+		checked[k] = true
+		want := expected[k]
+		o := objs[k.obj]
+		if o.accepts == nil || (k.kind != "string" && k.kind != "bytes" && k.kind != "reader") {
+			continue
+		}
+		cr, isCR := want.(callResult)
+		if !isCR || strings.HasPrefix(cr.Err, "build: ") {
+			continue
+		}
+		in := o.spec.Inputs[k.input%len(o.spec.Inputs)]
+		if ok, known := o.accepts(in); known && ok != (cr.Err == "") {
+			return violationf("fresh-not-isolated", "a freshly built parser of the grammar, used alone, returns error %q for input %q although the grammar %s it (reference parser): what a new instance does depends on what else the process has built or parsed\ngrammar:\n%s",
+				cr.Err, in, map[bool]string{true: "accepts", false: "rejects"}[ok], o.spec.G.String())
+		}
 	}
 	type got struct {
 		op  c09Op
